@@ -16,7 +16,7 @@ ASSUMPTIONS = [
     "emitted-error list: the proof checks lengths at every observation point; that equal lengths imply equal contents rests on the list being used as a stack (only push / truncate / extend-from-inner / in-place label), which is re-checked by a source scan on every run and by the native small-scope sweep which compares ids",
     "usize is a 64-bit vector in Kani (machine arithmetic is not treated as mathematical)",
     "features not built under Kani: stacker, regex, lexical-numbers, serde, bytes, sync, nightly (memoization is built for the Memoized harnesses only, with hashbrown::HashMap replaced by the finite-map contract kani/hashmodel.rs through a cfg-guarded hook: an assumed, unverified contract on the dependency)",
-    "tuple arities > 3 of Choice/Group/pratt tables are covered by macro uniformity only",
+    "tuple arities > 4 of Choice/Group (and > 2 of pratt tables) are covered by macro uniformity only",
 ]
 
 PER_PROPERTY = {}
@@ -99,7 +99,7 @@ EXPLAIN.update({
     "C20": "obligations = 'failure leaves a pending error' postconditions (C20/...) plus one 'every automatic Kani check passes' obligation per harness (panics, overflow, bounds, pointer validity in the code under contract)",
 })
 UNCOVERED.update({
-    "C01": ["tuple arities > 3 of choice/group (same macro body)", "any_ref / select_ref (need a borrowing input; same code shape as any / select)", "todo() (panics by design)", "unwrapped() (panics by design on None/Err)"],
+    "C01": ["tuple arities > 4 of choice/group (same macro body; 1-4 are under contract)", "any_ref / select_ref (need a borrowing input; same code shape as any / select)", "todo() (panics by design)", "unwrapped() (panics by design on None/Err)"],
     "C02": ["drivers are bounded (<= 2 items): the unbounded statement is carried by the step contracts + lemma_count", "the real Repeated/configure + collect::<Vec> composition is checked bounded (<= 2 items) with bounds of the full usize range", "IntoIter / Flatten iterable adaptors", "String containers (String::push is std)"],
     "C03": ["lazy(): bounded to 2 trailing tokens", "the identity of the primary error at top level is compared natively only (reading the error buffer is out of CBMC's reach)"],
     "C04": ["to_slice/ignored etc. are compared with their value-building form through a common specification, not by a two-run product"],
